@@ -381,6 +381,27 @@ def r6_children_index(P, rep, ctx):
     rep.check(ok, "C07.R6", fi.qual, "on every registration the schema is recorded as child of each of its parents (independent of whether the parent entry existed)", fi.loc(), construct="children index update per parent",
               message="_update_parents_children records a schema under a parent only on some iterations (e.g. only when the parent's entry is created): objects of a child schema registered after its parent are not found by queries for the parent schema")
     rep.check(ok2, "C07.R6", fi.qual, "a parent's child set is created only when absent", fi.loc(), construct="children init", message="the child set of a parent is re-initialised although present")
+    # class-wide: wherever a child set is (re)created it is for a key that has none yet -- registrations made earlier
+    # (e.g. a child schema loaded from disk before its parent) are never wiped
+    cls_ = P.cls(f"{I}.TOCSchemas")
+    for mfi in cls_.methods.values():
+        if mfi.name in ("__init__",) and False:
+            continue
+        mf = F(ctx, mfi)
+        for i, v, b in mf.stores("self._children[__k]"):
+            raw = mf.g.nodes[i].stmt.value
+            if not (isinstance(raw, ast.Call) and norm(raw.func) in ("set", "dict", "list") or isinstance(raw, (ast.Set, ast.List, ast.Dict))):
+                continue
+            k = norm(b["__k"])
+            absent = mf.tests(f"{k} not in self._children")
+            okk = bool(absent) and mf.hit_before(i, edges=absent)
+            rep.check(okk, "C07.R6", mfi.qual, f"child set of {k} created only when absent", mfi.loc(mf.g.nodes[i].stmt), construct=f"children entry creation {norm(mf.g.nodes[i].stmt)[:60]}",
+                      message=f"`{norm(mf.g.nodes[i].stmt)[:70]}` in {mfi.name} re-initialises the child set of a schema unconditionally: children recorded before (e.g. child schemas loaded from the container before their parent) are forgotten, and queries for the parent schema miss nodes carrying only the child schema")
+        if mfi.name == "__init__":
+            whole = [i for i, v, b in mf.stores("self._children")]
+            loops_ = [n.idx for n in mf.g.nodes if n.kind == "for"]
+            rep.check(bool(whole) and all(mf.all_hit_before([l_], nodes=whole) for l_ in loops_), "C07.R6", mfi.qual, "the index is created empty once, before the stored schemas are loaded", mfi.loc(), construct="children table init",
+                      message="TOCSchemas.__init__ (re)creates the children table after or while loading")
     ch = P.func(f"{I}.TOCSchemas.children")
     rep.check(any(M.match("self._children.get", x) is not None or M.match("self._children[__k]", x) is not None for x in ast.walk(ch.node)), "C07.R6", ch.qual, "children() reads the same index", ch.loc(), construct="children()", message="TOCSchemas.children does not read _children")
     # explicit start node wins over the accessor's default (query scope)
